@@ -361,14 +361,39 @@ theorem index_rk (v : Val) (i : Int) : OutEq (indexInt Mode.real v i) (indexInt 
         simp [h1, h2, h3, h4, goIndex, getElem?_ofJVs, List.getElem?_eq_getElem hn, OutEq]
   | _ => simp only [indexInt, Mode.view, Mode.real, Mode.known, isDV, if_true, Bool.false_eq_true, if_false, Bool.and_false, Bool.false_and]; exact OutEq.rfl' _
 
-theorem strSlice_known_ab (rs : List Nat) (t : Bytes) (a b : Int) (h0 : 0 ≤ a) (h1 : a ≤ b) (h2 : b ≤ ↑rs.length)
+theorem garrOf_struct (fs : List (Bytes × DV)) : garrOf (.dv (.struct fs)) = none := rfl
+theorem garrOf_array (es : List DV) : garrOf (.dv (.array es)) = none := rfl
+
+theorem arr_slice_rk_ab (es : List DV) (a b : Int) (h0 : 0 ≤ a) (h1 : a ≤ b) (h2 : b ≤ ↑es.length) :
+    OutEq (DV.mSlice (.array es) a b)
+      (.ok (.arr (((es.map Val.dv).drop a.toNat).take (b.toNat - a.toNat)))) := by
+  have h3 : ¬ b < a := by omega
+  simp only [DV.mSlice, if_neg h3, goSlice_ok es a b h0 h1 h2, okVal, OutEq, List.map_drop, List.map_take]
+
+theorem str_slice_rk_ab (rs : List Nat) (t : Bytes) (a b : Int) (h0 : 0 ≤ a) (h1 : a ≤ b) (h2 : b ≤ ↑rs.length)
     (hch : chunks t = rs.map encodeRune) :
     OutEq (strSlice rs a b)
       (.ok (.str (((chunks t).drop a.toNat).take (b.toNat - a.toNat)).flatten)) := by
   simp only [strSlice, goSlice_ok rs a b h0 h1 h2, OutEq, hch]
   rw [← List.map_drop, ← List.map_take, flatten_map_encodeRune]
 
-theorem strSlice_known (rs : List Nat) (t : Bytes) (s e : Option Int) (hch : chunks t = rs.map encodeRune) :
+/-- funcSlice in a specification mode on a plain string -/
+theorem funcSlice_str (m : Mode) (hm : m.impl = false) (t : Bytes) (s e : Option Int) :
+    funcSlice m (.str t) s e =
+      .ok (.str ((((chunks t).drop (match s with
+              | some i => clampIndex (clampGoInt i) 0 ↑(chunks t).length
+              | none => 0).toNat).take
+            ((match e with
+              | some i => clampIndex (clampGoInt i) (match s with
+                | some i => clampIndex (clampGoInt i) 0 ↑(chunks t).length
+                | none => 0) ↑(chunks t).length
+              | none => ↑(chunks t).length).toNat - (match s with
+              | some i => clampIndex (clampGoInt i) 0 ↑(chunks t).length
+              | none => 0).toNat)).flatten)) := by
+  simp only [funcSlice, Mode.view, hm, garrOf, Bool.false_eq_true, if_false]
+  rfl
+
+theorem str_slice_rk (rs : List Nat) (t : Bytes) (s e : Option Int) (hch : chunks t = rs.map encodeRune) :
     OutEq
       (match (Outcome.ok (Val.int ↑rs.length) : Outcome Val) with
         | .ok (.int l) =>
@@ -384,95 +409,52 @@ theorem strSlice_known (rs : List Nat) (t : Bytes) (s e : Option Int) (hch : chu
         | r => r)
       (funcSlice Mode.known (.str t) s e) := by
   have hlen : (chunks t).length = rs.length := by rw [hch]; simp
-  simp only [funcSlice, Mode.view, Mode.known, Bool.false_eq_true, if_false, hlen]
+  rw [funcSlice_str Mode.known rfl]
+  simp only [hlen]
   have hb := slice_bounds (↑rs.length) (by omega) s e
   simp only at hb
-  exact strSlice_known_ab rs t _ _ hb.1 hb.2.1 hb.2.2 hch
+  exact str_slice_rk_ab rs t _ _ hb.1 hb.2.1 hb.2.2 hch
 
-theorem slice_known_str (t : Bytes) (s e : Option Int) (m : Mode) :
-    funcSlice m (.str t) s e = funcSlice Mode.known (.str t) s e := by
-  simp [funcSlice, Mode.view, Mode.known]
-
-theorem funcSlice_scalar_known (k : SKind) (sym : Option JV) (y : Bool) (s e : Option Int) :
-    funcSlice Mode.known (.dv (.scalar k sym y)) s e = funcSlice Mode.known (svView (scalarValue k sym)) s e := by
-  have hv := view_known_scalar k sym y
-  have hv2 : Mode.known.view (svView (scalarValue k sym)) = svView (scalarValue k sym) := by
+/-- funcSlice in a specification mode on a decoded scalar: the tagged-array case, else the view -/
+theorem funcSlice_scalar_spec (m : Mode) (hm : m.impl = false) (k : SKind) (sym : Option JV) (y : Bool) (s e : Option Int) :
+    funcSlice m (.dv (.scalar k sym y)) s e =
+      (match wrapSV (scalarValue k sym) with
+       | .arr xs => sliceSV (scalarValue k sym) s e
+       | _ => funcSlice m (svView (scalarValue k sym)) s e) := by
+  have hv : m.view (.dv (.scalar k sym y)) = svView (scalarValue k sym) := by
+    simp [Mode.view, hm, specView_scalar]
+  have hv2 : m.view (svView (scalarValue k sym)) = svView (scalarValue k sym) := by
+    generalize scalarValue k sym = sv
+    cases sv with
+    | raw bs => simp [Mode.view, hm, svView]
+    | j v => cases v <;> simp [Mode.view, hm, svView, wrapSV, G.toGoJQ, Val.ofJV]
+  have hg : garrOf (svView (scalarValue k sym)) = none := by
     generalize scalarValue k sym = sv
     cases sv with
     | raw bs => rfl
     | j v => cases v <;> rfl
   unfold funcSlice
-  rw [hv, hv2]
-
-theorem garr_slice_ab (xs : List JV) (a b : Int) (h0 : 0 ≤ a) (h1 : a ≤ b) (h2 : b ≤ ↑xs.length) :
-    (G.arr xs).slice a b = .ok (.garr ((xs.drop a.toNat).take (b.toNat - a.toNat))) := by
-  simp only [G.slice, goSlice_ok xs a b h0 h1 h2]
-
-
-/-- a bare gojqx.Array is a plain array for everything except object-key construction -/
-def normG : Val → Val
-  | .garr xs => .arr (Val.ofJVs xs)
-  | v => v
-
-def mapOut {α β} (f : α → β) : Outcome α → Outcome β
-  | .ok a => .ok (f a)
-  | .err e => .err e
-  | .panic w => .panic w
-
-theorem arr_slice_rk_ab (es : List DV) (a b : Int) (h0 : 0 ≤ a) (h1 : a ≤ b) (h2 : b ≤ ↑es.length) :
-    OutEq (mapOut normG (DV.mSlice (.array es) a b))
-      (mapOut normG (.ok (.arr (((es.map Val.dv).drop a.toNat).take (b.toNat - a.toNat))))) := by
-  have h3 : ¬ b < a := by omega
-  simp only [DV.mSlice, if_neg h3, goSlice_ok es a b h0 h1 h2, okVal, mapOut, normG, OutEq, List.map_drop, List.map_take]
-
-theorem garr_slice_rk_ab (xs : List JV) (a b : Int) (h0 : 0 ≤ a) (h1 : a ≤ b) (h2 : b ≤ ↑xs.length) :
-    OutEq (mapOut normG ((G.arr xs).slice a b))
-      (mapOut normG (.ok (.arr (((Val.ofJVs xs).drop a.toNat).take (b.toNat - a.toNat))))) := by
-  rw [garr_slice_ab xs a b h0 h1 h2]
-  simp [mapOut, normG, OutEq, ofJVs_eq_map, List.map_drop, List.map_take]
-
-theorem str_slice_rk_ab (rs : List Nat) (t : Bytes) (a b : Int) (h0 : 0 ≤ a) (h1 : a ≤ b) (h2 : b ≤ ↑rs.length)
-    (hch : chunks t = rs.map encodeRune) :
-    OutEq (mapOut normG (strSlice rs a b))
-      (mapOut normG (.ok (.str (((chunks t).drop a.toNat).take (b.toNat - a.toNat)).flatten))) := by
-  simp only [strSlice, goSlice_ok rs a b h0 h1 h2, OutEq, hch, mapOut, normG]
-  rw [← List.map_drop, ← List.map_take, flatten_map_encodeRune]
-
-theorem str_slice_rk (rs : List Nat) (t : Bytes) (s e : Option Int) (hch : chunks t = rs.map encodeRune) :
-    OutEq
-      (mapOut normG (match (Outcome.ok (Val.int ↑rs.length) : Outcome Val) with
-        | .ok (.int l) =>
-          strSlice rs
-            (match s with
-              | some i => clampIndex (clampGoInt i) 0 l
-              | none => 0)
-            (match e with
-              | some i => clampIndex (clampGoInt i) (match s with
-                | some i => clampIndex (clampGoInt i) 0 l
-                | none => 0) l
-              | none => l)
-        | r => r))
-      (mapOut normG (funcSlice Mode.known (.str t) s e)) := by
-  have hlen : (chunks t).length = rs.length := by rw [hch]; simp
-  simp only [funcSlice, Mode.view, Mode.known, Bool.false_eq_true, if_false, hlen]
-  have hb := slice_bounds (↑rs.length) (by omega) s e
-  simp only at hb
-  exact str_slice_rk_ab rs t _ _ hb.1 hb.2.1 hb.2.2 hch
+  rw [hv, hv2, hg]
+  simp only [hm, Bool.false_eq_true, if_false, garrOf, wrapScalar]
+  generalize scalarValue k sym = sv
+  cases sv with
+  | raw bs => simp [wrapSV]
+  | j v => cases v <;> (try simp [wrapSV, sliceSV, G.sliceLen]) <;> rfl
 
 theorem slice_rk (v : Val) (s e : Option Int) :
-    OutEq (mapOut normG (funcSlice Mode.real v s e)) (mapOut normG (funcSlice Mode.known v s e)) := by
+    OutEq (funcSlice Mode.real v s e) (funcSlice Mode.known v s e) := by
   cases v with
   | dv d =>
     cases d with
-    | struct fs => simp [funcSlice, Mode.view, Mode.real, Mode.known, specView, DV.mSliceLen, DV.mSlice, OutEq, mapOut, unm]
+    | struct fs => simp [funcSlice, Mode.view, Mode.real, Mode.known, specView, DV.mSliceLen, DV.mSlice, OutEq, unm, garrOf]
     | array es =>
       simp only [funcSlice, Mode.view, Mode.real, Mode.known, specView, DV.mSliceLen, if_true, Bool.false_eq_true, if_false,
-        List.length_map]
+        List.length_map, garrOf]
       have hb := slice_bounds (↑es.length) (by omega) s e
       simp only at hb
       exact arr_slice_rk_ab es _ _ hb.1 hb.2.1 hb.2.2
     | scalar k sym y =>
-      rw [funcSlice_scalar_known, funcSlice_scalar]
+      rw [funcSlice_scalar_spec Mode.known rfl, funcSlice_scalar]
       generalize scalarValue k sym = sv
       cases sv with
       | raw bs =>
@@ -483,20 +465,13 @@ theorem slice_rk (v : Val) (s e : Option Int) :
         | str s' =>
           simp only [sliceSV, svView, wrapSV, G.sliceLen, G.slice, G.toGoJQ, Val.ofJV]
           exact str_slice_rk (decodeRunes s') (sanitize s') s e (chunks_sanitize s')
-        | arr xs =>
-          simp only [sliceSV, svView, wrapSV, G.sliceLen, G.toGoJQ, Val.ofJV, funcSlice, Mode.view, Mode.known,
-            Bool.false_eq_true, if_false, ofJVs_length]
-          have hb := slice_bounds (↑xs.length) (by omega) s e
-          simp only at hb
-          exact garr_slice_rk_ab xs _ _ hb.1 hb.2.1 hb.2.2
-        | null => simp [sliceSV, svView, wrapSV, G.sliceLen, G.toGoJQ, Val.ofJV, funcSlice, Mode.view, Mode.known, OutEq, mapOut, normG]
-        | _ => simp [sliceSV, svView, wrapSV, G.sliceLen, G.toGoJQ, Val.ofJV, funcSlice, Mode.view, Mode.known, OutEq, mapOut, unm]
+        | arr xs => simp only [wrapSV]; exact OutEq.rfl' _
+        | null => simp [sliceSV, svView, wrapSV, G.sliceLen, G.toGoJQ, Val.ofJV, funcSlice, Mode.view, Mode.known, OutEq, garrOf]
+        | _ => simp [sliceSV, svView, wrapSV, G.sliceLen, G.toGoJQ, Val.ofJV, funcSlice, Mode.view, Mode.known, OutEq, unm, garrOf]
   | garr xs =>
-    simp only [funcSlice, Mode.view, Mode.real, Mode.known, if_true, Bool.false_eq_true, if_false, ofJVs_length]
-    have hb := slice_bounds (↑xs.length) (by omega) s e
-    simp only at hb
-    exact garr_slice_rk_ab xs _ _ hb.1 hb.2.1 hb.2.2
-  | _ => simp only [funcSlice, Mode.view, Mode.real, Mode.known, if_true, Bool.false_eq_true, if_false]; exact OutEq.rfl' _
+    simp only [funcSlice, Mode.view, Mode.real, Mode.known, if_true, Bool.false_eq_true, if_false, garrOf]
+    exact OutEq.rfl' _
+  | _ => simp only [funcSlice, Mode.view, Mode.real, Mode.known, if_true, Bool.false_eq_true, if_false, garrOf]; exact OutEq.rfl' _
 
 theorem goJQ_specDeep_scalar (k : SKind) (sym : Option JV) (y : Bool) :
     DV.goJQ (.scalar k sym y) = DV.specDeep (.scalar k sym y) := by
@@ -702,21 +677,6 @@ theorem descendPaths_rk (fuel : Nat) (p : List Val) (v : Val) :
     funext q
     exact ih _ q.2
 
-/-- the query does not slice (`.[a:b]` of a decoded JSON array yields a bare gojqx.Array in the code
-    and a plain array in the specification: equal only up to `normG`, see `slice_rk`) -/
-def NoSlice : Q → Prop
-  | .slice _ _ => False
-  | .pipe a b => NoSlice a ∧ NoSlice b
-  | .comma a b => NoSlice a ∧ NoSlice b
-  | .arrC q => NoSlice q
-  | .objC k v => NoSlice k ∧ NoSlice v
-  | .bin _ a b => NoSlice a ∧ NoSlice b
-  | .ite c a b => NoSlice c ∧ NoSlice a ∧ NoSlice b
-  | .alt a b => NoSlice a ∧ NoSlice b
-  | .try q => NoSlice q
-  | _ => True
-
-
 theorem eval_pipe (m : Mode) (ff) (a b : Q) (v : Val) :
     (Q.pipe a b).eval m ff v = seqRes (bindRes (b.eval m ff) (a.eval m ff v).outs) (a.eval m ff v).err := by
   rw [Q.eval]; rfl
@@ -762,41 +722,37 @@ theorem bindRes_outs_congr (f g : Val → Res) (h : ∀ v, ResEq (f v) (g v)) {v
     deep, + D1-D4) extended by exactly the recorded deviations give the same outputs in the same
     order and end the same way. -/
 theorem eval_rk (ff : UInt64 → Option Bytes) :
-    ∀ (q : Q), NoSlice q → ∀ v : Val, ResEq (q.eval Mode.real ff v) (q.eval Mode.known ff v)
-  | .id, _, v => ResEq.refl _
-  | .field k, _, v => by simp only [Q.eval]; exact ResEq_ofOutcome (key_rk v k)
-  | .index i, _, v => by simp only [Q.eval]; exact ResEq_ofOutcome (index_rk v i)
-  | .slice _ _, h, _ => absurd h (by simp [NoSlice])
-  | .iter, _, v => by
+    ∀ (q : Q) (v : Val), ResEq (q.eval Mode.real ff v) (q.eval Mode.known ff v)
+  | .id, v => ResEq.refl _
+  | .field k, v => by simp only [Q.eval]; exact ResEq_ofOutcome (key_rk v k)
+  | .index i, v => by simp only [Q.eval]; exact ResEq_ofOutcome (index_rk v i)
+  | .slice a b, v => by simp only [Q.eval]; exact ResEq_ofOutcome (slice_rk v a b)
+  | .iter, v => by
     simp only [Q.eval]
     have h := each_rk v
     revert h
     cases opEach Mode.real v <;> cases opEach Mode.known v <;> simp [OutEq, ResEq, errEq]
     intro h; rw [h]
-  | .recurse, _, v => by simp only [Q.eval, descend_rk]; exact ResEq.refl _
-  | .pipe a b, h, v => by
-    simp only [NoSlice] at h
+  | .recurse, v => by simp only [Q.eval, descend_rk]; exact ResEq.refl _
+  | .pipe a b, v => by
     rw [eval_pipe, eval_pipe]
-    have ha := eval_rk ff a h.1 v
-    exact seqRes_congr (bindRes_outs_congr _ _ (eval_rk ff b h.2) ha.1) ha.2
-  | .comma a b, h, v => by
-    simp only [NoSlice] at h
+    have ha := eval_rk ff a v
+    exact seqRes_congr (bindRes_outs_congr _ _ (eval_rk ff b) ha.1) ha.2
+  | .comma a b, v => by
     rw [eval_comma, eval_comma]
-    obtain ⟨hao, hae⟩ := eval_rk ff a h.1 v
-    obtain ⟨hbo, hbe⟩ := eval_rk ff b h.2 v
+    obtain ⟨hao, hae⟩ := eval_rk ff a v
+    obtain ⟨hbo, hbe⟩ := eval_rk ff b v
     cases h1 : (a.eval Mode.real ff v).err <;> cases h2 : (a.eval Mode.known ff v).err <;>
       simp_all [ResEq, errEq]
-  | .lit j, _, v => ResEq.refl _
-  | .arrC q, h, v => by
-    simp only [NoSlice] at h
-    obtain ⟨ho, he⟩ := eval_rk ff q h v
+  | .lit j, v => ResEq.refl _
+  | .arrC q, v => by
+    obtain ⟨ho, he⟩ := eval_rk ff q v
     simp only [Q.eval]
     cases h1 : (q.eval Mode.real ff v).err <;> cases h2 : (q.eval Mode.known ff v).err <;>
       simp_all [ResEq, errEq]
-  | .objC kq vq, h, v => by
-    simp only [NoSlice] at h
-    have hk := eval_rk ff kq h.1 v
-    have hv := eval_rk ff vq h.2 v
+  | .objC kq vq, v => by
+    have hk := eval_rk ff kq v
+    have hv := eval_rk ff vq v
     rw [eval_objC, eval_objC]
     refine seqRes_congr (bindRes_outs_congr _ _ ?_ hk.1) hk.2
     intro k
@@ -807,49 +763,45 @@ theorem eval_rk (ff : UInt64 → Option Bytes) :
       | ok ks => exact ⟨rfl, hv.2⟩
       | err e => exact ⟨rfl, by simp [errEq]⟩
       | panic w => exact ⟨rfl, by simp [errEq]⟩
-  | .keys, _, v => by simp only [Q.eval]; exact ResEq_ofOutcome (keys_rk v)
-  | .length, _, v => by simp only [Q.eval]; exact ResEq_ofOutcome (length_rk v)
-  | .type, _, v => by simp only [Q.eval, type_rk]; exact ResEq.refl _
-  | .paths, _, v => by simp only [Q.eval, descendPaths_rk]; exact ResEq.refl _
-  | .toEntries, _, v => by simp only [Q.eval]; exact ResEq_ofOutcome (toentries_rk v)
-  | .tojson, _, v => by simp only [Q.eval, tojson_rk]; exact ResEq.refl _
-  | .tostring, _, v => by simp only [Q.eval, tostring_rk]; exact ResEq.refl _
-  | .tonumber, _, v => by simp only [Q.eval]; exact ResEq_ofOutcome (tonumber_rk v)
-  | .sort, _, v => by simp only [Q.eval, sort_rk]; exact ResEq.refl _
-  | .has k, _, v => by simp only [Q.eval]; exact ResEq_ofOutcome (has_rk v k)
-  | .bin op a b, h, v => by
-    simp only [NoSlice] at h
-    have ha := eval_rk ff a h.1 v
-    have hb := eval_rk ff b h.2 v
+  | .keys, v => by simp only [Q.eval]; exact ResEq_ofOutcome (keys_rk v)
+  | .length, v => by simp only [Q.eval]; exact ResEq_ofOutcome (length_rk v)
+  | .type, v => by simp only [Q.eval, type_rk]; exact ResEq.refl _
+  | .paths, v => by simp only [Q.eval, descendPaths_rk]; exact ResEq.refl _
+  | .toEntries, v => by simp only [Q.eval]; exact ResEq_ofOutcome (toentries_rk v)
+  | .tojson, v => by simp only [Q.eval, tojson_rk]; exact ResEq.refl _
+  | .tostring, v => by simp only [Q.eval, tostring_rk]; exact ResEq.refl _
+  | .tonumber, v => by simp only [Q.eval]; exact ResEq_ofOutcome (tonumber_rk v)
+  | .sort, v => by simp only [Q.eval, sort_rk]; exact ResEq.refl _
+  | .has k, v => by simp only [Q.eval]; exact ResEq_ofOutcome (has_rk v k)
+  | .bin op a b, v => by
+    have ha := eval_rk ff a v
+    have hb := eval_rk ff b v
     rw [eval_bin, eval_bin]
     refine seqRes_congr (bindRes_outs_congr _ _ ?_ hb.1) hb.2
     intro y
     refine seqRes_congr (bindRes_outs_congr _ _ ?_ ha.1) ha.2
     intro x
     cases op <;> simp only [cmp_rk, add_rk, sub_rk] <;> exact ResEq.refl _
-  | .ite c a b, h, v => by
-    simp only [NoSlice] at h
-    have hc := eval_rk ff c h.1 v
+  | .ite c a b, v => by
+    have hc := eval_rk ff c v
     rw [eval_ite, eval_ite]
     refine seqRes_congr (bindRes_outs_congr _ _ ?_ hc.1) hc.2
     intro x
     simp only [truthy_rk]
     split
-    · exact eval_rk ff a h.2.1 v
-    · exact eval_rk ff b h.2.2 v
-  | .alt a b, h, v => by
-    simp only [NoSlice] at h
-    obtain ⟨hao, hae⟩ := eval_rk ff a h.1 v
-    have hb := eval_rk ff b h.2 v
+    · exact eval_rk ff a v
+    · exact eval_rk ff b v
+  | .alt a b, v => by
+    obtain ⟨hao, hae⟩ := eval_rk ff a v
+    have hb := eval_rk ff b v
     simp only [Q.eval]
     have ht : (a.eval Mode.real ff v).outs.filter (truthy Mode.real) = (a.eval Mode.known ff v).outs.filter (truthy Mode.known) := by
       rw [hao]; congr 1; funext x; exact truthy_rk x
     cases h1 : (a.eval Mode.real ff v).err <;> cases h2 : (a.eval Mode.known ff v).err <;>
       simp_all [ResEq, errEq]
     split <;> simp_all [ResEq, errEq]
-  | .try q, h, v => by
-    simp only [NoSlice] at h
-    obtain ⟨ho, he⟩ := eval_rk ff q h v
+  | .try q, v => by
+    obtain ⟨ho, he⟩ := eval_rk ff q v
     simp only [Q.eval]
     cases h1 : (q.eval Mode.real ff v).err with
     | none =>
